@@ -93,7 +93,7 @@ static unsigned arg_start(const char *msg_)
     const uint8_t *aligned_ptr = args-1;
     const uint8_t *arg_pos = args;
 
-    while(*++arg_pos);
+    while(*arg_pos) ++arg_pos;
     //Alignment
     arg_pos += 4-(arg_pos-aligned_ptr)%4;
     return arg_pos-msg;
@@ -119,7 +119,7 @@ static unsigned arg_size(const uint8_t *arg_mem, char type)
             return 4;
         case 'S':
         case 's':
-            while(*++arg_pos);
+            while(*arg_pos) ++arg_pos;
             arg_pos += 4-(arg_pos-arg_mem)%4;
             return arg_pos-arg_mem;
         case 'b':
@@ -147,7 +147,7 @@ static unsigned arg_off(const char *msg, unsigned idx)
     const uint8_t *aligned_ptr = args-1;
     const uint8_t *arg_pos = args;
 
-    while(*++arg_pos);
+    while(*arg_pos) ++arg_pos;
     //Alignment
     arg_pos += 4-(arg_pos-((uint8_t*)aligned_ptr))%4;
 
@@ -627,7 +627,7 @@ size_t rtosc_message_ring_length(ring_t *ring)
                 break;
             case 'S':
             case 's':
-                while(deref(++pos,ring));
+                while(deref(pos,ring)) ++pos;
                 pos += 4-(pos-aligned_pos)%4;
                 --toparse;
                 break;
